@@ -233,7 +233,12 @@ def groupnormalization_20_21(node: ir.Node, op):
         bias_expand = op.Expand(bias_reshape_1, expand_sizes)
         bias_reshape_2 = op.Reshape(bias_expand, reshape_2_sizes)
 
-        return op.GroupNormalization(x, scale_reshape_2, bias_reshape_2, num_groups=num_groups)
+        # Keep the other attributes of the original node (epsilon)
+        attributes = {"num_groups": num_groups}
+        epsilon = node.attributes.get("epsilon")
+        if epsilon is not None:
+            attributes["epsilon"] = epsilon.as_float()
+        return op.GroupNormalization(x, scale_reshape_2, bias_reshape_2, **attributes)
     return None
 
 
